@@ -323,6 +323,8 @@ def scenario(draw, p=None):
     if mode != "none":
         noise["sigma"] = draw(st.sampled_from([1e-3, 0.1, 1.0, 10.0])) * (min(scale, 1e4) if draw(st.booleans()) else 1.0)
         noise["hetero"] = draw(st.sampled_from([0.0, 0.5, 3.0])) if mode == "specified" else 0.0
+        if mode == "specified" and draw(st.booleans()):
+            noise["jitter"] = True
     tgt["noise"] = noise
     noisy_declared = mode in ("declared", "specified")
 
